@@ -102,6 +102,8 @@ def cells(tier, seed):
             c = {"strategy": s, "dist": dist, "pat": [0, 0, 0, 0], "shape": list(shape), "q": q, "mode": mode, "jit": "setting"}
             if valid(c):
                 out.append(c)
+    for (T, b, n), mode in itertools.product([(3, 2, 4), (3, 3, 3), (2, 1, 3)], ["eval", "train"]):
+        out.append({"what": "taskdim", "T": T, "b": b, "n": n, "mode": mode})
     for s, dist in sorted(ILLEGAL):
         out.append({"strategy": s, "dist": dist, "pat": [0, 0, 0, 0], "shape": [3, 4, 1], "q": "generic", "mode": "eval",
                     "jit": "default", "expect": "refusal"})
@@ -538,7 +540,67 @@ def ciq_context(st):
         st.enter_context(c)
 
 
+def run_taskdim(cell, seed):
+    """IndependentMultitaskVariationalStrategy(task_dim=-2) over a base strategy with batch shape (T, b): the wrapper only re-arranges the latent
+    q(f) of the base strategy (whose value the other cells decide): all-task output, per-point task selection (task_indices), and the KL summed
+    over the TASK dimension. Differential oracle: the base strategy's own output."""
+    fails = Fails()
+    T, b, n = cell["T"], cell["b"], cell["n"]
+    M, d = 3, 1
+    feats = {"strategy": "IndepMT-taskdim", "dist": "Cholesky", "T": T, "b": b, "n": n, "mode": cell["mode"], "q": "generic", "jit": "default"}
+    g = util.gen(seed, "c14td|" + util.jdump(cell))
+    util.own_rng(seed, "c14td-lib|" + util.jdump(cell))
+    Z = inducing(g, (T, b), M, d)
+    vd = V.CholeskyVariationalDistribution(M, batch_shape=torch.Size([T, b]))
+
+    def mk(m):
+        base = V.VariationalStrategy(m, Z, vd, learn_inducing_locations=True)
+        return V.IndependentMultitaskVariationalStrategy(base, num_tasks=T, task_dim=-2)
+
+    model = VModel(mk, (T, b), d)
+    set_hypers(model, g, (T, b), d)
+    X = util.rand(g, n, d)
+    model.train()
+    with torch.no_grad():
+        model(X)
+        vd.variational_mean.copy_(util.randn(g, T, b, M))
+        A = 0.4 * util.randn(g, T, b, M, M)
+        vd.chol_variational_covar.copy_(torch.tril(A) + torch.diag_embed(0.6 + util.rand(g, T, b, M)))
+    model.train(cell["mode"] == "train")
+    vs = model.variational_strategy
+    with torch.no_grad():
+        with fails.guard("taskdim-all"):
+            out = model(X)
+            lat = vs.base_variational_strategy(X)                       # batch (T, b): the latent q(f)
+            lm, lc = lat.mean, lat.covariance_matrix                     # (T, b, n), (T, b, n, n)
+            bcheck(fails, "taskdim-all", out.mean, lm.permute(1, 2, 0), 1e-10, "all-task mean != latent means arranged b x n x T")
+            C4 = cov4_of(out, n, T)                                       # (b, n, T, n, T)
+            want4 = torch.einsum("tbij,tu,tv->biujv", lc, torch.eye(T, dtype=F64), torch.eye(T, dtype=F64))
+            bcheck(fails, "taskdim-all", C4, want4, 1e-10, "all-task covariance != block diagonal over tasks of the latent covariances")
+        with fails.guard("taskdim-kl"):
+            kl = vs.kl_divergence()
+            want = vs.base_variational_strategy.kl_divergence().sum(0)   # summed over the task dimension: one value per batch member
+            if tuple(kl.shape) != tuple(want.shape):
+                fails.add("taskdim-kl", f"kl_divergence() has shape {tuple(kl.shape)}, want {tuple(want.shape)} (the KL of the T tasks summed, per batch member)")
+            else:
+                bcheck(fails, "taskdim-kl", kl, want, 1e-10, "kl_divergence() != sum over the task dimension of the latent KLs")
+        with fails.guard("taskdim-indices"):
+            ti = torch.tensor([(i * 2 + 1) % T for i in range(n)])
+            out = model(X, task_indices=ti)
+            idx = torch.arange(n)
+            wm = lm[ti, :, idx].transpose(0, 1)                                              # (b, n)
+            wc = lc[ti][:, :, idx, :][..., idx]                                               # placeholder, replaced below
+            wc = torch.stack([torch.stack([lc[ti[i], :, i, j] * float(ti[i] == ti[j]) for j in range(n)], -1) for i in range(n)], -2)  # (b, n, n)
+            bcheck(fails, "taskdim-indices", out.mean, wm, 1e-10, "task_indices mean != latent mean of the selected task at each point")
+            bcheck(fails, "taskdim-indices", out.covariance_matrix, wc, 1e-10, "task_indices covariance != latent covariance within a task, 0 across tasks")
+    for f in fails:
+        f["features"] = dict(feats, what=f["sub"])
+    return {"fails": _dedupe(fails), "sig": "taskdim:" + ",".join(sorted({f["sub"] for f in fails})), "features": feats, "ops": 4, "nontrivial": True}
+
+
 def run_cell(cell, seed):
+    if cell.get("what") == "taskdim":
+        return run_taskdim(cell, seed)
     fails = Fails()
     bz, bv, bk, bx = cell["pat"]
     M, n, d = cell["shape"]
